@@ -436,16 +436,6 @@ Triples(JS, SRC) ==
 
 Keep(S) == {c \in S : Covered(c)}     \* evaluated once, at constant level
 
-C06Quick    == Keep(GridA(Shapes, VarQuick)
-                    \cup PairsSS({1, 2, 4, 5, 6}, {Per(<<2, -1, 1>>), Fin(<<-1, 2>>)})
-                    \cup PairsSL({2, 5, 6}, {1, 2}, BSrcQ)
-                    \cup Scalings({1, 2, 5, 6}, BSrcQ)
-                    \cup Triples({6}, {Per(<<2, -1, 1>>), Fin(<<-1, 2>>)})
-                    \cup Triples({2}, {Fin(<<-1, 2, 1>>)}))
-C06Thorough == Keep(GridA(Shapes, VarFull)
-                    \cup PairsSS(1..8, BSrcQ \cup {Fin(<<2, 1, 1>>)})
-                    \cup PairsSL(1..8, 1..4, BSrcF)
-                    \cup Scalings(1..8, BSrcF)
-                    \cup Triples({2, 5, 6}, {Per(<<2, -1, 1>>), Fin(<<-1, 2, 1>>)})
-                    \cup Triples({1, 4}, {Fin(<<2, -1>>)}))
+\* The grids themselves are in FilterC06Q.tla / FilterC06T.tla (TLC evaluates every parameterless definition
+\* of every loaded module at start-up, and the trace module EXTENDS this one).
 ============================================================================
